@@ -77,7 +77,7 @@ def run(ctx):
         add(f"loop{h}x{w_}i{im}", h, w_, "loop", ["c01-loop", "--h", h, "--w", w_, "--n", n, "--seed", seed, "--imgs", im, "--base", base])
         base += n
     # generated surfaces -> pairs
-    gens = [(1, 3, "{0,1,2,4,6,9}", 1500 if q else 0), (2, 2, "{0,1,4,6,7}", 1500 if q else 0)]
+    gens = [(1, 3, "{0,1,2,4,6,9}", 1500 if q else 0), (2, 2, "{0,1,4,6,7}", 1500 if q else 0), (1, 2, "{0,1,13,14}", 0)]
     if not q:
         gens += [(1, 4, "{0,1,2,4,6}", 30000), (2, 3, "{0,1,4,7}", 30000)]
     gen_runs = []
